@@ -15,9 +15,10 @@ use barter::{
         Engine, EngineOutput,
         action::ActionOutput,
         audit::EngineAudit,
-        clock::LiveClock,
+        clock::HistoricalClock,
         state::{
             EngineState,
+            connectivity::Health,
             global::DefaultGlobalData,
             instrument::{data::DefaultInstrumentMarketData, filter::InstrumentFilter},
             trading::TradingState,
@@ -100,7 +101,15 @@ impl AlgoStrategy for Observer {
                 m.insert(cid.0.to_string(), json!(order_kind(&o.state)));
             }
         }
-        self.views.lock().push(Value::Object(m));
+        let bal: serde_json::Map<String, Value> = state.assets.0.iter().map(|(k, a)| {
+            (format!("bal_{}", k.asset), match &a.balance {
+                None => json!({"has": false, "t": 0, "v": 0}),
+                Some(b) => json!({"has": true, "t": untime_ms(b.time), "v": dec_units(b.value.total, 1000)}),
+            })
+        }).collect();
+        let conn: Vec<Value> = state.connectivity.exchanges.values()
+            .map(|c| json!({"market": c.market_data == Health::Healthy, "account": c.account == Health::Healthy})).collect();
+        self.views.lock().push(json!({"orders": m, "bal": bal, "conn": conn, "global": state.connectivity.global == Health::Healthy}));
         (std::iter::empty(), std::iter::empty())
     }
 }
@@ -174,7 +183,7 @@ async fn main() {
     let sys_args = SystemArgs::new(
         &instruments,
         vec![ExecutionConfig::Mock(mock_config(args.u64("latency", 2)))],
-        LiveClock,
+        HistoricalClock::new(time(0)),
         strategy,
         DefaultRiskManager::<State>::default(),
         market_stream,
@@ -185,12 +194,34 @@ async fn main() {
         .engine_feed_mode(if args.u64("seed", 1) % 2 == 0 { EngineFeedMode::Iterator } else { EngineFeedMode::Stream })
         .audit_mode(AuditMode::Enabled)
         .trading_state(TradingState::Enabled) // so that the observer is called after every event
+        // balances seeded through the builder, as a user of SystemBuilder would (same as the mock's account)
+        .balances([(EXCHANGE, "btc", Balance { total: dec(5), free: dec(5) }), (EXCHANGE, "eth", Balance { total: dec(5), free: dec(5) }),
+                   (EXCHANGE, "usdt", Balance { total: dec(3000), free: dec(3000) })])
         .build::<EngineEvent, _>()
         .unwrap_or_else(|e| usage(&format!("system build: {e:?}")))
         .init_with_runtime(tokio::runtime::Handle::current())
         .await
         .unwrap_or_else(|e| usage(&format!("system init: {e:?}")));
-    let SnapUpdates { snapshot: _, updates: mut audit_rx } = system.audit.take().expect("audit enabled");
+    let SnapUpdates { snapshot: audit_snapshot, updates: mut audit_rx } = system.audit.take().expect("audit enabled");
+    // ---- freshness trace (spec/Freshness.tla): seeded balances, then every balance the exchange delivers
+    let mut fresh = args.get("fresh-out").map(Out::create);
+    let seeded: Vec<(String, i64, Value)> = audit_snapshot.event.assets.0.iter().map(|(k, a)| {
+        let b = a.balance.as_ref();
+        (format!("bal_{}", k.asset), b.map(|b| untime_ms(b.time)).unwrap_or(-1), b.map(|b| dec_units(b.value.total, 1000)).unwrap_or(json!(-1)))
+    }).collect();
+    if let Some(f) = fresh.as_mut() {
+        let none: serde_json::Map<String, Value> = seeded.iter().map(|(k, _, _)| (k.clone(), json!({"has": false, "t": 0, "v": 0}))).collect();
+        f.line(&json!({"a": "Reset", "post": none}));
+        // the builder stamps seeded balances with the engine clock's start time: a HistoricalClock started at
+        // time(0) reads time(0) plus the few wall-clock milliseconds since its creation
+        if let Some((k, t, _)) = seeded.iter().find(|(_, t, _)| !(0..=60_000).contains(t)) {
+            f.line(&json!({"a": "Deliver", "ms": [], "anomaly": format!("seeded balance {k} is stamped {t} ms from the engine clock's start (expected within [0, 60000])")}));
+        } else {
+            let ms: Vec<Value> = seeded.iter().map(|(k, t, v)| json!({"item": k, "t": t, "v": v})).collect();
+            let post: serde_json::Map<String, Value> = seeded.iter().map(|(k, t, v)| (k.clone(), json!({"has": true, "t": t, "v": v}))).collect();
+            f.line(&json!({"a": "Deliver", "ms": ms, "post": post}));
+        }
+    }
 
     // ---- drive
     let mut next_id = 0usize;
@@ -249,15 +280,33 @@ async fn main() {
         if now == last { stable += 1 } else { stable = 0; last = now }
     }
     let n_before_shutdown = views.lock().len();
+    // ---- the execution link of the exchange goes down: kill the (mock) exchange task and wait for the
+    // engine to process the account-stream disconnect notice
+    let drop_link = args.u64("drop-link", 1) == 1;
+    if drop_link {
+        for h in system.handles.execution.mock_exchanges.iter() {
+            h.abort();
+        }
+        let t_drop = std::time::Instant::now();
+        while views.lock().len() == n_before_shutdown && t_drop.elapsed() < Duration::from_secs(10) {
+            tokio::time::sleep(Duration::from_millis(50)).await;
+        }
+        tokio::time::sleep(Duration::from_millis(100)).await;
+    }
     let shutdown = tokio::time::timeout(Duration::from_secs(20), system.shutdown()).await;
-    if shutdown.is_err() {
-        out.line(&json!({"a": "Anomaly", "anomaly": "system.shutdown() did not return within 20 s"}));
+    match shutdown {
+        Err(_) => out.line(&json!({"a": "Anomaly", "anomaly": "system.shutdown() did not return within 20 s"})),
+        // the task this driver aborted itself reports as cancelled: not a defect
+        Ok(Err(e)) if drop_link && e.is_cancelled() => {}
+        Ok(Err(e)) => out.line(&json!({"a": "Anomaly", "anomaly": format!("system.shutdown() failed: {e} (a task panicked)")})),
+        Ok(Ok(_)) => {}
     }
 
     // ---- the audit stream -> trace lines
     let views = views.lock().clone();
     let mut vi = 0usize;
     let mut ticks = 0usize;
+    let mut link_notices = 0usize;
     while let Ok(tick) = audit_rx.rx.try_recv() {
         let EngineAudit::Process(p) = &tick.event else { continue };
         ticks += 1;
@@ -272,6 +321,30 @@ async fn main() {
                         s.opens.sent.iter().for_each(|r| lines.push(json!({"a": "SendOpen", "c": r.key.cid.0.as_str()})));
                     }
                     ActionOutput::GenerateAlgoOrders(_) => {}
+                }
+            }
+        }
+        if let EngineEvent::Account(AccountStreamEvent::Reconnecting(ex)) = &p.event {
+            let v = views.get(vi);
+            lines.push(json!({"a": "LinkDown", "notice_for_own_exchange": *ex == EXCHANGE,
+                              "account_link_down": v.map(|v| v["conn"][0]["account"] == json!(false)).unwrap_or(false),
+                              "global_down": v.map(|v| v["global"] == json!(false)).unwrap_or(false)}));
+            link_notices += 1;
+        }
+        if let (Some(f), EngineEvent::Account(AccountStreamEvent::Item(ev))) = (fresh.as_mut(), &p.event) {
+            let msg = |b: &AssetBalance<AssetIndex>| {
+                let name = audit_snapshot.event.assets.0.get_index(b.asset.index()).map(|(k, _)| format!("bal_{}", k.asset)).unwrap_or_else(|| "bal_?".into());
+                json!({"item": name, "t": untime_ms(b.time_exchange), "v": dec_units(b.balance.total, 1000)})
+            };
+            let ms: Vec<Value> = match &ev.kind {
+                AccountEventKind::BalanceSnapshot(b) => vec![msg(&b.0)],
+                AccountEventKind::Snapshot(snap) => snap.balances.iter().map(msg).collect(),
+                _ => vec![],
+            };
+            if !ms.is_empty() {
+                match views.get(vi) {
+                    Some(v) => f.line(&json!({"a": "Deliver", "ms": ms, "post": v["bal"]})),
+                    None => f.line(&json!({"a": "Deliver", "ms": ms, "anomaly": "no engine view for this audit record"})),
                 }
             }
         }
@@ -294,7 +367,7 @@ async fn main() {
         let is_shutdown = matches!(&p.event, EngineEvent::Shutdown(_));
         if !is_shutdown {
             if let Some(v) = views.get(vi) {
-                lines.push(json!({"a": "State", "post": v}));
+                lines.push(json!({"a": "State", "post": v["orders"]}));
             } else {
                 lines.push(json!({"a": "Anomaly", "anomaly": "an audit record without a matching strategy call (trading enabled)"}));
             }
@@ -307,6 +380,11 @@ async fn main() {
             out.line(&l);
         }
     }
+    if drop_link {
+        // exactly one disconnect notice must have reached the engine for the killed link
+        out.line(&json!({"a": "LinkDownCount", "n": link_notices}));
+    }
     let n = out.finish();
-    println!("{}", json!({"lines": n, "audit_records": ticks, "strategy_views": views.len(), "opens": next_id}));
+    let nf = fresh.map(|f| f.finish()).unwrap_or(0);
+    println!("{}", json!({"lines": n, "fresh_lines": nf, "audit_records": ticks, "strategy_views": views.len(), "opens": next_id, "link_notices": link_notices}));
 }
